@@ -80,6 +80,11 @@ CHECKS = {
    note="Trusted: TLC's string concatenation, hook H3 (DescriptorManager re-export), the marker closures. Literals in the programs are numbers and booleans.",
    technique="TLA+ descriptor-store state machine vs reference rendering (TLC exhaustive over registration histories) + replay in fresh processes + trace validation",
    design="5/C18"),
+ "C13": dict(
+   text="An explicit TLA+ model of the engine as a concurrent system (module Engine: the once-cell with its four built-in registration stages, one mutex per registry with separate acquire and release steps, evaluations as plans of lookups and handler invocations, re-entrant handlers as nested frames) is checked by TLC on first-use races of 2 and 3 threads, re-entrant and fine-grained configurations: NoPartialInit, BuiltinsComplete, OneLockAtATime, NoLockInHandler, deadlock freedom, EvalReadsOnly, termination under fairness, and linearizability against the atomic engine. Conformance: first-use scenarios are executed in fresh child processes under every thread order over the first 6 (thorough 8) yield points (hook H2, a controller releasing one thread per step) and 150 (thorough 1500) free-running stress runs with 2-6 (8) threads; every recorded event list, ordered by one atomic sequence counter, is validated by TLC against the atomic engine - TLC chooses the linearization point of each call between its call and return events (silent action), checks NoPartialInit on the probe events and that each handler that ran is the one its call resolved.",
+   note="Known finding C13/nonatomic-eval (F1): an evaluation is several critical sections, so execute(\"g() + (2 + 3)\") overlapped by a re-registration of + returns 0 (sequential orders: 6, 2); reproduced deterministically and printed as KNOWN-FINDING; the model's invariant is LinearizableOrF1. Schedules can be forced only at hook yield points; std Mutex/OnceCell are trusted.",
+   technique="TLA+ concurrent Engine model (TLC: invariants, deadlock, liveness, linearizability) + forced schedules and stress runs in fresh processes + trace validation with silent linearization points",
+   design="5/C13"),
 }
 NOT_YET = "check not built yet (build in progress; see DESIGN.md section 11)"
 
